@@ -6,6 +6,7 @@ for all arguments. A change of the Go function changes the generated definition 
 import NeoModel.Generated.GoFuncs
 import NeoModel.Model.StateCommit.Roots
 import NeoModel.Model.StateCommit.Rpc
+import NeoModel.Model.StateCommit.Get
 namespace NeoModel.GoFuncsTie
 open NeoModel NeoModel.Generated NeoModel.StateCommit
 
@@ -36,5 +37,110 @@ theorem c03_rpcStorageKey_id (id len : Int) (key : Bytes) :
     Rpc.makeStorageKey (id % 4294967296).toNat key = Find.le32 (id % 4294967296).toNat ++ key ∧
     ∀ n : Nat, Find.le32 (n % 4294967296) = Find.le32 n :=
   ⟨rfl, rfl, fun n => leBytes_mod 4 n⟩
+
+/-! ### which state root a historic invocation is bound to (blockchain.go GetTestHistoricVM) -/
+
+/-- the requests GetTestHistoricVM refuses before it fetches a state root. -/
+def historicRefused (kols fakeErr rub : Bool) (mtb height bIndex : Int) : Prop :=
+  kols = true ∨ fakeErr = true ∨
+    (rub = true ∧ height > mtb ∧ bIndex < (height - mtb) % 4294967296) ∨
+    bIndex < 1 ∨ bIndex > (height + 1) % 4294967296
+
+instance (kols fakeErr rub : Bool) (mtb height bIndex : Int) : Decidable (historicRefused kols fakeErr rub mtb height bIndex) := by
+  unfold historicRefused; infer_instance
+
+/-- **C03.T1 (translated code)**: for every configuration and every request, `GetTestHistoricVM` either
+refuses before touching the state module, or the FIRST thing it asks the state module for is the state
+root of height `b.Index - 1` — for the tip (`b.Index = BlockHeight()+1`) exactly as for older heights:
+there is no path that serves an accepted request from anything but that root. -/
+theorem c03_historicVM_binds_root (t next : Int) (kols : Bool) (fake : Int) (fakeErr rub : Bool) (mtb height bIndex : Int) :
+    GoFuncs.historicVMStateHeight t next kols fake fakeErr rub mtb height bIndex =
+      if historicRefused kols fakeErr rub mtb height bIndex then none else some [(bIndex - 1) % 4294967296] := by
+  unfold GoFuncs.historicVMStateHeight historicRefused
+  by_cases hA : (height > mtb ∧ bIndex < (height - mtb) % 4294967296) <;>
+  by_cases hB : (bIndex < 1 ∨ bIndex > (height + 1) % 4294967296) <;>
+  cases kols <;> cases fakeErr <;> cases rub <;> simp [hA, hB]
+
+/-- … and the context it returns on success is the one built over `NewTrieStore(sr.Root, …)` of that
+fetch: outcome "ok" needs the state root fetch and the native cache initialisation over the trie-backed DAO
+to succeed, and returns `newInteropContext(t, dTrie, b, tx)` with `dTrie.Version = bc.dao.Version`. -/
+theorem c03_historicVM_ok (t next ver : Int) (kols : Bool) (fake : Int) (fakeErr rub : Bool) (mtb height bIndex sr : Int)
+    (srErr : Bool) (store dtrie daoVer : Int) (initErr : Bool) (ctx spawn : Int) :
+    GoFuncs.historicVM t next ver kols fake fakeErr rub mtb height bIndex sr srErr store dtrie daoVer initErr ctx spawn =
+      if historicRefused kols fakeErr rub mtb height bIndex ∨ srErr = true then (0, "err", ver)
+      else if initErr = true then (0, "err", daoVer) else (ctx, "ok", daoVer) := by
+  unfold GoFuncs.historicVM historicRefused
+  by_cases hA : (height > mtb ∧ bIndex < (height - mtb) % 4294967296) <;>
+  by_cases hB : (bIndex < 1 ∨ bIndex > (height + 1) % 4294967296) <;>
+  cases kols <;> cases fakeErr <;> cases rub <;> cases srErr <;> cases initErr <;> simp [hA, hB]
+
+/-- C03.T2: `getHistoricParams` (rpcsrv): whichever way the height was given — a number, a block hash, a
+state root hash — the invocation is run for `nextBlockHeight = height + 1` (mod 2^32), so that by T1 it is
+bound to the root of `height`. -/
+theorem c03_rpcHistoricParams_next (kols : Bool) (eUns : Int) (n eInv h1 : Int) (r1 : Int) (respErr : Bool) (hash : Int)
+    (hashErr : Bool) (eHash blk : Int) (blkErr : Bool) (stH : Int) (stErr : Bool) (eUnk bIdx : Int)
+    (hk : kols = false) (hn : ¬ n < 1) :
+    GoFuncs.rpcHistoricParams kols eUns n eInv h1 r1 respErr hash hashErr eHash blk blkErr stH stErr eUnk bIdx =
+      if respErr = false then ((h1 + 1) % 4294967296, 0)
+      else if hashErr = true then (0, eHash)
+      else if blkErr = false then ((bIdx + 1) % 4294967296, 0)
+      else if stErr = true then (0, eUnk) else ((stH + 1) % 4294967296, 0) := by
+  unfold GoFuncs.rpcHistoricParams
+  subst hk
+  cases respErr <;> cases hashErr <;> cases blkErr <;> cases stErr <;> simp [hn]
+
+/-! ### TrieStore.Get / Trie.Get: the guards -/
+
+/-- C03.T3: `TrieStore.Get` has no length guard of its own: for a non-empty key under a storage prefix it
+returns exactly what `Trie.Get(key[1:])` returns (value and error), mapping only ErrNotFound to
+ErrKeyNotFound; other keys are refused. (Model: `Find.trieStoreGet`.) -/
+theorem c03_trieStoreGet (len k0 res : Int) (err nf : Bool) :
+    GoFuncs.trieStoreGet len k0 res err nf =
+      if len = 0 then (0, "ErrUnsupported")
+      else if k0 % 256 = 112 ∨ k0 % 256 = 113 then
+        (if err = true ∧ nf = true then (0, "ErrKeyNotFound") else (res, "m_trie_Get_key_1_1_err"))
+      else (0, "ErrUnsupported") := by
+  unfold GoFuncs.trieStoreGet
+  rfl
+
+/-- C03.T4: the only length guard on the way is `Trie.Get`'s, `len(key) > MaxKeyLength` on the key WITHOUT
+the storage prefix byte, and `MaxKeyLength` is the model's `Find.maxKeyLength` (68 = 4 + MaxStorageKeyLen):
+a key of exactly the limit is looked up. -/
+theorem c03_trieGet_guard (root len nib r leaf : Int) (err : Bool) (v : Int) :
+    GoFuncs.trieGet root len nib r leaf err v =
+      if len > (Find.maxKeyLength : Int) then (0, "err", root)
+      else if err = true then (0, "t_getWithPath_t_root_path_true_3_err", root) else (v, "ok", r) := by
+  unfold GoFuncs.trieGet Find.maxKeyLength
+  rfl
+
+/-! ### stateroot.Module: what the entry points write -/
+
+/-- C03.T5: `UpdateCurrentLocal` installs the new trie and stores BOTH the current local root and the local
+height (model: `Roots.storeBlock` sets `mpt`, `currentLocal`, `localHeight`). -/
+theorem c03_updateCurrentLocal (old new : Int) (srInHead : Bool) :
+    (GoFuncs.moduleUpdateCurrentLocal old new srInHead).1 = new ∧
+    ["s.currentLocal.Store", "s.localHeight.Store"] <+: (GoFuncs.moduleUpdateCurrentLocal old new srInHead).2 := by
+  unfold GoFuncs.moduleUpdateCurrentLocal
+  cases srInHead <;> simp
+
+/-- C03.T6: `Init(height)` (restart): if the record of `height` is found, the current local root and the local
+height are stored and the trie is re-opened from the record's root; if not, only height 0 is accepted and
+only the current local root is reset (model: `Roots.init`). -/
+theorem c03_init (height old v : Int) (vErr : Bool) (vh : Int) (nil1 : Bool) (e1 rec : Int) (recErr : Bool)
+    (t3 : Int) (nil2 : Bool) (e2 t2 : Int) :
+    let r := GoFuncs.moduleInit height old v vErr vh nil1 e1 rec recErr t3 nil2 e2 t2
+    (recErr = false → r.1 = "ok" ∧ (r.2.1 = t3 ∨ r.2.1 = t2) ∧
+        "s.currentLocal.Store" ∈ r.2.2 ∧ "s.localHeight.Store" ∈ r.2.2) ∧
+    (recErr = true → height ≠ 0 → r.1 = "s_getStateRoot_makeStateRootKey_height_1_err") ∧
+    (recErr = true → height = 0 → r.1 = "ok" ∧ "s.localHeight.Store" ∉ r.2.2) := by
+  unfold GoFuncs.moduleInit
+  cases vErr <;> cases nil1 <;> cases nil2 <;> cases recErr <;> simp <;> (try (split <;> simp_all))
+
+/-- C03.T7: `JumpToState` stores the local record, the validated height, the current local root and height, and
+re-opens the trie from `sr.Root`. -/
+theorem c03_jumpToState (old d t : Int) :
+    GoFuncs.moduleJumpToState old d t =
+      (t, ["s.addLocalStateRoot", "binary.LittleEndian.PutUint32", "s.Store.Put", "s.validatedHeight.Store",
+           "s.currentLocal.Store", "s.localHeight.Store"]) := rfl
 
 end NeoModel.GoFuncsTie
